@@ -283,6 +283,8 @@ class SimPool:
         self.terminated = False
         self.task_seq = 0
         parent = w.current
+        self._parent, self._initializer, self._initargs = parent, initializer, initargs
+        self.maxtasksperchild = int(maxtasksperchild) if maxtasksperchild else None
         self.workers = []
         for i in range(self.processes):
             w.worker_counter += 1
@@ -432,6 +434,17 @@ class SimPool:
             else:
                 task, (ok, payload) = running.pop(i)
                 tkind, seq, _p, res, cb, ecb, chunk_i = task
+                if self.maxtasksperchild and self.workers[i].tasks_run >= self.maxtasksperchild:
+                    # worker recycling: the worker exits and the pool forks a replacement from the parent AS IT IS NOW
+                    # (the parent sits in map/get, so this is its state at the time of the call), then runs the initializer
+                    w.worker_counter += 1
+                    fresh = self._parent.fork(pid=w.next_pid(), identity=(w.worker_counter,))
+                    self.workers[i] = fresh
+                    if self._initializer is not None:
+                        with fresh:
+                            self._initializer(*self._initargs)
+                    w.stats["workers_forked"] += 1
+                    w.stats["workers_recycled"] = w.stats.get("workers_recycled", 0) + 1
                 value = self._loads(payload) if ok else payload
                 completion.append(seq)
                 if tkind == "single":
